@@ -75,6 +75,8 @@ BASES = [BASE,
          BASE + ['--geo-scale=0.5', '--geo-scale=3'],
          BASE + ['--geo-rotate=1,10,20,30', '--geo-translate=2,0.5,0.25,1.5'],
          ['-w', '2,0,0,0,0,0,1,.001', '--excitation-pulse=1', '-f', '10', '--medium=0,0,0'],
+         ['-w', '2,0,0,0,0,0,1,.001', '--excitation-pulse=1', '-f', '10', '--medium=13,0.005,0'],
+         ['-w', '2,0,0,0,0,0,1,.001', '--excitation-pulse=1', '-f', '10', '--medium=13,0.005,0,5', '--medium=5,0.001,-2'],
          ['-w', '2,0,0,0.5,0,0,1.5,.001', '-w', '2,0,0,1.5,0.7,0,1.5,.001', '--excitation-pulse=1', '-f', '10', '--geo-scale=1.5']]
 
 
